@@ -458,3 +458,39 @@ func receiverMutators(pkgs map[string]*pkgInfo) {
 	add("cors_receiverMutators", ": List Bytes := "+leanBytesList(out),
 		"every method that writes through its receiver (directly or by calling such a method on something rooted at the receiver): pkg.(recvType).method (sorted)")
 }
+
+// cfgSkeletons: the text of the parts of config.go that stay hand-modelled next to the translated loop bodies: the four list
+// validators with their `for … range` loop replaced by `<loop>` (prologue, declarations, epilogue), and the whole of
+// newInternalConfig and newConfig — as "func|text" with comments dropped and white space normalised.  C05 / C06 pin them.
+func cfgSkeletons(pkgs map[string]*pkgInfo) {
+	p := pkgs["cors"]
+	if p == nil {
+		return
+	}
+	var out, texts []string
+	for _, w := range []string{"validateOrigins", "validateMethods", "validateRequestHeaders", "validateResponseHeaders", "newInternalConfig", "newConfig"} {
+		text := "<missing>"
+		for _, f := range p.files {
+			for _, d := range f.Decls {
+				fd, ok := d.(*ast.FuncDecl)
+				if !ok || fd.Body == nil || fd.Name.Name != w {
+					continue
+				}
+				var parts []string
+				for _, st := range fd.Body.List {
+					if _, isLoop := st.(*ast.RangeStmt); isLoop && strings.HasPrefix(w, "validate") {
+						parts = append(parts, "<loop>")
+					} else {
+						parts = append(parts, codeText(st))
+					}
+				}
+				text = exprText(fd.Type) + " { " + strings.Join(parts, " ; ") + " }"
+			}
+		}
+		sum := sha256.Sum256([]byte(text))
+		out = append(out, w+"|"+hex.EncodeToString(sum[:12]))
+		texts = append(texts, "     "+w+"|"+strings.ReplaceAll(text, "-/", "- /"))
+	}
+	add("cors_cfgSkeletons", ": List Bytes := "+leanBytesList(out),
+		"fingerprints (SHA-256, first 12 bytes) of the hand-modelled parts of config.go: validators with their loop replaced by <loop>, newInternalConfig, newConfig. The texts:\n"+strings.Join(texts, "\n"))
+}
